@@ -96,4 +96,33 @@ CHECKS = {
                 'discarded); literal targets; real samples.',
         'technique': 'property-based testing (Hypothesis) with membership-by-construction oracle + exhaustive grids',
     },
+    'C13': {
+        'text': 'Hypothesis-generated dependency DAGs (2..8 variables; interval, discrete and vector samplers with '
+                'disjoint ranges; dependent formulas over earlier variables, constants and numbered instances) in '
+                'shuffled declaration orders, observed through gen_symbols_samples and through grader calls with a '
+                'recording comparer; completeness, provenance and dependent consistency judged against a reference '
+                'evaluation of each formula on the same sample; cyclic/dangling variants must raise ConfigError.',
+        'note': 'Trusts the reference evaluator; dependent formulas are total by construction; 10 s watchdog for the '
+                'termination clause.',
+        'technique': 'property-based testing (Hypothesis) against a reference evaluation of the dependency graph',
+    },
+    'C14': {
+        'text': 'Exhaustive shape lattice (441 shape pairs x 5 operators x entry kinds x 5 routes: binary, reflected, '
+                'in-place, formula with variables, formula with literals), exhaustive scalar and power grids incl. '
+                'exactly singular bases, and Hypothesis random cells, singular matrices, vector-product chains and '
+                'negative-power-switch histories, judged against a hand-written linear-algebra rule table on plain '
+                'lists/ndarrays.',
+        'note': 'One-element results may be a bare number or a one-element array; singular bases judged only when '
+                'exactly rank-deficient (rational arithmetic) or well-conditioned.',
+        'technique': 'exhaustive enumeration + property-based testing (Hypothesis) against a reference rule table',
+    },
+    'C17': {
+        'text': 'Exhaustive schedule grid (264 schedules x attempts 1..200) and exhaustive grid of those schedules on two '
+                'fixed graders x attempts -3..200 x note flag, plus Hypothesis-generated String/Formula/SingleList/List '
+                'graders (nested, grouped, author schedules) judged differentially against the same grader without '
+                'attempt-based credit.',
+        'note': 'Accepts a result consistent with either the 4-decimal-rounded or the unrounded multiplier for off-grid '
+                'author schedule values; separator before the note not prescribed.',
+        'technique': 'exhaustive enumeration + property-based testing (Hypothesis); differential twin without the feature',
+    },
 }
